@@ -1,0 +1,11 @@
+//go:build !verif
+
+// Package verifhook marks the points of the write path where the verification harness (build tag "verif")
+// observes, and may suspend, a goroutine. Without the tag Yield is an empty function that the compiler
+// inlines away: production builds are unchanged.
+package verifhook
+
+import "context"
+
+// Yield marks a scheduling/observation point. It does nothing in normal builds.
+func Yield(ctx context.Context, point string, kv ...any) {}
